@@ -7,6 +7,7 @@ Only property theorems and non-vacuity examples live here. Hypotheses (`WFcum`, 
 import Bermuda.Model.Basis
 import Bermuda.Spec.C04
 import Bermuda.Lemmas.BasisSpec
+import Bermuda.Lemmas.Eq
 namespace Bermuda.Properties.C04
 open Bermuda Std
 
@@ -518,6 +519,51 @@ example : Triangle.toCumulative exUbroken = .error .triangleError := by
       dictCompatB a.values b.values = true := by decide +kernel
   exact fun a ha b hb e => dictCompat_of_B (this a ha b hb e)
 
+
+/-- `exT` with `reported_loss` missing from ONE cell (slice US, period 2020, evaluation 2021): rows keep their key
+set everywhere else -/
+def exTbadKeys : List Cell :=
+  [ mkC mA 2020 (d 2020 12 31) [10, 20] [15, 25.5] 100,
+    mkC mA 2020 (d 2022 12 31) [30, 25] [35, 30.25] 100,
+    mkC mB 2020 (d 2020 12 31) [1, 2] [1.5, 2] 50,
+    { mkC mB 2020 (d 2021 12 31) [4, 2] [4.5, 2.5] 50 with
+      values := [("paid_loss", arrI [4, 2]), ("earned_premium", .flt 50)] },
+    mkC mB 2020 (d 2022 12 31) [9, 3] [9, 3.5] 55,
+    mkC mB 2021 (d 2021 12 31) [7, 7] [8, 8] 60 ]
+
+/-- non-vacuity of `toInc_error_of_key_mismatch`: the hypotheses hold of `exTbadKeys`, so it is refused -/
+example : Triangle.toIncremental exTbadKeys = .error .triangleError :=
+  toInc_error_of_key_mismatch
+    ⟨by decide +kernel, by decide +kernel, by decide +kernel, by decide +kernel,
+     adjOK_rows_of_B (by decide +kernel)⟩
+    ⟨((d 2020 1 1, d 2020 12 31), mB), hasMismatch_of_B (by decide +kernel)⟩
+
+/-- `exU` with an extra field in ONE increment (slice US, period 2020, evaluation 2021) -/
+def exUbadKeys : List Cell :=
+  [ mkI mA 2020 (d 2019 12 31) (d 2020 12 31) [10, 20] 100,
+    mkI mA 2020 (d 2020 12 31) (d 2022 12 31) [20, 5] 100,
+    mkI mB 2020 (d 2019 12 31) (d 2020 12 31) [1, 2] 50,
+    { mkI mB 2020 (d 2020 12 31) (d 2021 12 31) [3, 0] 50 with
+      values := [("earned_premium", .flt 50), ("paid_loss", arrI [3, 0]), ("zz_extra", .int 1)] },
+    mkI mB 2020 (d 2021 12 31) (d 2022 12 31) [5, 1] 55,
+    mkI mB 2021 (d 2020 12 31) (d 2021 12 31) [7, 7] 60 ]
+
+/-- non-vacuity of `toCum_error_of_key_mismatch` -/
+example : Triangle.toCumulative exUbadKeys = .error .triangleError :=
+  toCum_error_of_key_mismatch
+    ⟨by decide +kernel, by decide +kernel, by decide +kernel, adjOK_rows_of_B (by decide +kernel)⟩
+    ⟨((d 2020 1 1, d 2020 12 31), mB), hasMismatch_of_B (by decide +kernel)⟩
+
+/-! ### 7. the row key of the model and Python's grouping key -/
+
+/-- `to_incremental` / `to_cumulative` group by `(cell.period, cell.metadata)` through `Metadata.__eq__/__hash__`
+(detail-dict insertion order ignored); the model groups by structural equality of `rowKey`. On metadata in wire
+form (`Canon`: detail dicts sorted by key — what the harness sends and what `WFcum`/`Consistent` triangles are
+compared on) the two keys identify exactly the same cells. This is the (only) place where the theorems of this file
+rely on the canonical representation of metadata. -/
+theorem rowKey_eq_iff_python_key {a b : Cell} (ha : a.md.Canon) (hb : b.md.Canon) :
+    rowKey a = rowKey b ↔ a.ps = b.ps ∧ a.pe = b.pe ∧ a.md.eqv b.md = true := by
+  simp only [rowKey, Prod.mk.injEq, Metadata.eqv_iff_eq ha hb, and_assoc]
 
 end Bermuda.Properties.C04
 
